@@ -1403,6 +1403,15 @@ func (fx *Fx) specFuncApp(env *SpecEnv, sf *SpecFunc, args []Val) Val {
 	if len(args) != len(sf.Params) {
 		sfail("spec func %s: %d arguments for %d parameters", sf.Name, len(args), len(sf.Params))
 	}
+	if hp := fx.w.Pkgs[sf.PkgPath]; hp != nil && hp != env.pkg {
+		// the function's parameter types and body are resolved in the package that declares it
+		e2 := *env
+		e2.pkg = hp
+		e2.pos = token.NoPos
+		outer := env.bound
+		env = &e2
+		env.bound = outer
+	}
 	rs, rgt := env.sortOfName(sf.Result)
 	if sf.Body != nil && !sexprMentions(sf.Body, sf.Name) {
 		n := *env
